@@ -101,6 +101,9 @@ def obligations(tier, seed):
               ('val_f32_subnormal', '(au::get_value<float>(au::mag<3>() * au::pow<-130>(au::mag<2>())) == (3.0f * std::numeric_limits<float>::min()) / 16.0f)', 1),
               ('rep_f64_subnormal', 'au::representable_in<double>(au::mag<3>() * au::pow<-1030>(au::mag<2>()))', 1),
               ('val_f32_1e_m30_positive', '(au::get_value<float>(au::pow<-30>(au::mag<10>())) > 0.0f)', 1)]
+    facts += [('rep_ull_2_63', 'au::representable_in<unsigned long long>(au::pow<63>(au::mag<2>()))', 1), ('val_ull_max', '(au::get_value<unsigned long long>(au::mag<18446744073709551615ULL>()) == 18446744073709551615ULL)', 1),
+              ('rep_ul_2_63', 'au::representable_in<unsigned long>(au::pow<63>(au::mag<2>()))', 1), ('rep_ll_2_63', 'au::representable_in<long long>(au::pow<63>(au::mag<2>()))', 0),
+              ('rep_uchar_255', 'au::representable_in<unsigned char>(au::mag<255>())', 1), ('rep_char16_65535', 'au::representable_in<char16_t>(au::mag<65535>())', 1)]
     facts += [('rep_u64_2_64', 'au::representable_in<uint64_t>(au::pow<64>(au::mag<2>()))', 0), ('rep_u64_2_63', 'au::representable_in<uint64_t>(au::pow<63>(au::mag<2>()))', 1),
               ('rep_i64_2_63', 'au::representable_in<int64_t>(au::pow<63>(au::mag<2>()))', 0),
               ('rep_f32_2_127', 'au::representable_in<float>(au::pow<127>(au::mag<2>()))', 1), ('rep_f32_2_128', 'au::representable_in<float>(au::pow<128>(au::mag<2>()))', 0),
@@ -137,7 +140,7 @@ def obligations(tier, seed):
                       functions_under_contract=('au::representable_in', 'au::get_value', 'au::is_integer', 'au::is_rational', 'au::numerator', 'au::denominator', 'au::integer_part')))
     # ---- the same boundary facts as supporting static facts (one probe TU each): a hard error or a different answer is attributed to its instance
     HDR = '#include "au/magnitude.hh"\n#include <cstdint>\n#define VF_STATIC_FACT(c) static_assert(c, "VF_STATIC_FACT")\n'
-    sel = facts if tier == 'thorough' else [f for f in facts if f[0].startswith(('rep_u8', 'rep_i8', 'val_u8', 'val_i64_max', 'val_u64', 'rep_f32', 'rep_f64_2', 'rep_u64', 'rep_i64_2', 'val_i16', 'rep_i64_prime', 'rep_i32_prime', 'val_f32_1e', 'val_f64_1e', 'is_rat_inv', 'is_rat_180')) or f[0].endswith('prime_above')]
+    sel = facts if tier == 'thorough' else [f for f in facts if f[0].startswith(('rep_u8', 'rep_i8', 'val_u8', 'val_i64_max', 'val_u64', 'rep_f32', 'rep_f64_2', 'rep_u64', 'rep_i64_2', 'val_i16', 'rep_i64_prime', 'rep_i32_prime', 'val_f32_1e', 'val_f64_1e', 'is_rat_inv', 'is_rat_180', 'rep_ull', 'val_ull', 'rep_ul_', 'rep_ll_')) or f[0].endswith('prime_above')]
     for (nm, expr, exp) in sel:
         obs.append(Ob(id='C11.static.%s' % nm, prop='C11', group='C11.static', prelude='', wrappers=[], inputs=[],
                       body=HDR + 'VF_STATIC_FACT((%s) == %s);\nint main() {}\n' % (expr, 'true' if exp else 'false'), kind='S',
